@@ -23,6 +23,7 @@ SPEC = {
     "onset_no_def": "TEMPORAL_TAG_ERROR", "onset_too_many_defs": "TEMPORAL_TAG_ERROR",
     "onset_wrong_groups": "TEMPORAL_TAG_ERROR", "onset_tag_outside": "TEMPORAL_TAG_ERROR",
     "duration_other_tags": "TEMPORAL_TAG_ERROR", "duration_wrong_groups": "TEMPORAL_TAG_ERROR",
+    "top_level_copy": "TAG_GROUP_ERROR", "tag_group_copy": "TAG_GROUP_ERROR",
 }
 
 # definitions handed to the DefinitionDict
@@ -336,7 +337,7 @@ STRUCT_RULES = ["unknown", "ext_term", "ext_forbidden", "placeholder", "require_
                 "tag_group", "top_level", "multi_top", "unique_dup", "repeat_tag", "repeat_group",
                 "repeat_group_permuted", "prefix", "tagchar", "empty_group", "char_in_text_value",
                 "onset_no_def", "onset_too_many_defs", "onset_wrong_groups", "onset_tag_outside",
-                "duration_other_tags", "duration_wrong_groups"]
+                "duration_other_tags", "duration_wrong_groups", "top_level_copy", "tag_group_copy"]
 TEXT_RULES = ["char", "tilde", "curly", "paren", "empty", "missing_comma", "slash"]
 
 
@@ -474,6 +475,43 @@ def mutate(rng, V, tree, rule, ph, modern):
             return None
         a, b = rng.sample(V.temporal, 2)
         t.insert(rng.randint(0, len(t)), ["Def/OnDef2", a, b])
+        return render(t, rng)
+    if rule == "top_level_copy":
+        # a correctly placed top-level-group construct AND an identical copy of it (same members, same order) in a
+        # wrong place: nested at depth >= 2.  Placement must be decided by position, never by content.
+        tl_names = {x.casefold() for x in V.temporal + V.duration_top} | ({"event-context"} if V.event_context else set())
+        if not tl_names or len(V.plain) < 4:
+            return None
+        have = [x for x in t if isinstance(x, list)
+                and any(isinstance(y, str) and y.split("/")[0].casefold() in tl_names for y in x)]
+        p1, p2, p3 = [n["short"] for n in rng.sample(V.plain, 3)]
+        if have and rng.random() < 0.6:
+            grp = rng.choice(have)
+        else:
+            opts = []
+            if V.temporal and V.has_defs:
+                opts.append(["Def/OnDef2", rng.choice(V.temporal)])
+            if V.duration_top:
+                opts.append([rng.choice(V.duration_top) + "/3 s", [p3]])
+            if V.event_context and not any(isinstance(x, list) and "Event-context" in x for x in t):
+                opts.append(["Event-context", [p3]])
+            if not opts:
+                return None
+            grp = rng.choice(opts)
+            t.insert(rng.randint(0, len(t)), grp)
+        copy = deep(grp)
+        wrapped = [p1, copy] if rng.random() < 0.5 else [p1, [p2, copy]]
+        if rng.random() < 0.5:
+            rng.shuffle(wrapped)
+        t.insert(rng.randint(0, len(t)), wrapped)
+        return render(t, rng)
+    if rule == "tag_group_copy":
+        # a tag-group tag outside parentheses while an identical, correctly grouped occurrence exists elsewhere
+        if not V.has_defs:
+            return None
+        where = get(t, rng.choice(groups)) if groups and rng.random() < 0.4 else t
+        where.insert(rng.randint(0, len(where)), ["Def-expand/AltDef", ["Blue", "Red"]])
+        t.insert(rng.randint(0, len(t)), "Def-expand/AltDef")
         return render(t, rng)
     if rule.startswith("onset_"):
         if not (V.temporal and V.has_defs) or len(V.plain) < 4:
